@@ -249,6 +249,28 @@ class World(object):
                     b'#.change:\n#..meta: format=json, length=3\n{}\n'
                     b'#..file:\n#...meta: format=json, length=3\n{}\n'
                     b'#..file:\n#...meta: length=3\n{}\n')
+        elif self.rng.random() < 0.08:
+            # several sections with byte-identical, large metadata (and
+            # identical preambles / diffs): equal content is not shared
+            # content
+            big = {'blob': 'x' * self.rng.choice([300, 1100, 5000]),
+                   'nested': {'list': [1, 2, {'deep': []}]}}
+            f = {'encoding': None, 'meta': {'obj': big, 'encoding': None},
+                 'diff': {'data': b'--- a\n+++ b\n@@ -1 +1 @@\n-a\n+b\n',
+                          'encoding': None, 'line_endings': None,
+                          'type': None}}
+            pre = {'text': 'same text\n' * 40, 'encoding': None, 'indent': 4,
+                   'line_endings': None, 'mimetype': None, 'explicit': True}
+            doc = {'encoding': 'utf-8', 'preamble': dict(pre),
+                   'meta': {'obj': copy.deepcopy(big), 'encoding': None},
+                   'changes': [
+                       {'encoding': None, 'preamble': dict(pre),
+                        'meta': {'obj': copy.deepcopy(big), 'encoding': None},
+                        'files': [copy.deepcopy(f), copy.deepcopy(f)]},
+                       {'encoding': None, 'preamble': dict(pre),
+                        'meta': {'obj': copy.deepcopy(big), 'encoding': None},
+                        'files': [copy.deepcopy(f)]}]}
+            data = serialize(doc)[0]
         elif self.bytes_pool and self.rng.random() < 0.5:
             data = self.rng.choice(self.bytes_pool)
         else:
